@@ -135,6 +135,7 @@ def run_proofreader_options(tex, language, disable, enable,
     #
     def f(m):
         beg = json_get(m, 'offset', int)
+        json_get(m, 'length', int)      # needed by utils.map_match_position()
         if beg < 0 or beg >= len(charmap_tot):
             tex2txt.fatal('run_proofreader():'
                             + ' bad message read from proofreader')
